@@ -80,6 +80,9 @@ func docs() []doc {
 		{name: "d7'-img-bytes-2", html: imgDoc, fetcher: fixedFetcher(map[string][]byte{"http://h/img.png": png2}, map[string]string{"http://h/img.png": "image/png"})},
 		{name: "d8-font-face-ahem", html: fontDoc(render.AhemPath), fresh: true},
 		{name: "d8'-font-face-weasyprint", html: fontDoc(render.WeasyprintFont), fresh: true},
+		{name: "d9-hyphen-hu", html: prelude + `<style>body{hyphens:auto}</style><p lang="hu" style="width:70px">kulissza kulissza asszonnyal</p><p lang="fr" style="width:60px">extraordinairement</p>`},
+		{name: "d10-svg-href-chain", html: prelude + `<p>ab <svg xmlns="http://www.w3.org/2000/svg" width="40" height="20"><defs><linearGradient id="base" x1="0" x2="0" y2="1" gradientUnits="userSpaceOnUse" spreadMethod="repeat"><stop offset="0" stop-color="red"/><stop offset="1" stop-color="blue"/></linearGradient><linearGradient id="mid" href="#base"/><linearGradient id="top" href="#mid"/><pattern id="pb" width="4" height="4" patternUnits="userSpaceOnUse"><rect width="2" height="2"/></pattern><pattern id="pm" href="#pb"/><pattern id="pt" href="#pm"/></defs><rect width="20" height="20" fill="url(#top)"/><rect x="20" width="20" height="20" fill="url(#pt)"/></svg> cd</p>`},
+		{name: "d11-grid", html: `<style>@page{size:200px 200px;margin:5px} html,body{margin:0;font-family:ahem;font-size:10px;line-height:1}</style><div style="display:grid;grid-template-columns:30px 1fr auto;grid-template-rows:auto 20px;gap:2px"><div style="grid-column:3;grid-row:1">aa</div><div style="grid-column:1;grid-row:2">bb</div><div>cc</div><div style="grid-column:2 / span 2">dd ee</div><div>ff</div></div>`},
 		// documents that USE a name defined only by another document: they observe anything that leaks
 		{name: "d6''-counter-style-undefined", html: prelude + `<style>li{list-style:z inside} body{hyphens:auto}</style><ol><li>aa<li>bb<li>cc</ol><p lang="en" style="width:60px">hyphenation extraordinary</p>`},
 		{name: "d7''-img-missing", html: imgDoc, fetcher: fixedFetcher(map[string][]byte{}, map[string]string{})},
